@@ -15,7 +15,22 @@ import (
 
 type lvec struct {
 	vec
-	Plain bool `json:"plain"`
+	Plain   bool `json:"plain"`
+	NoBytes bool `json:"nobytes"` // the vector carries no octets (only lengths and offsets)
+	// what the CompressLen machines say the library predicts / emits with Compress = true; binding where Exact
+	Pimpl *int `json:"pimpl"`
+	Limpl *int `json:"limpl"`
+	Exact bool `json:"exact"`
+}
+
+var modelMismatch []interface{} // vectors on which the CompressLen machines do not describe the code (no verdict: see c08.py)
+
+// smallL: what is kept of a C08 case (with the spec's flags and model values, without megabytes of octets)
+func smallL(v *lvec) interface{} {
+	if len(v.Bytes) > 4096 || v.Lenmsg > 4096 {
+		return map[string]interface{}{"g": v.G, "v": v.V, "big": true}
+	}
+	return v
 }
 
 func cTag(compress bool) string {
@@ -42,7 +57,7 @@ func lenReplay(path string) {
 				skipped++
 			}
 		}); p != "" {
-			sum.Mis("len/panic:"+L.MsgKey(&v.Msg), "panic: "+p, small(&v.vec))
+			sum.Mis("len/panic:"+L.MsgKey(&v.Msg), "panic: "+p, smallL(v))
 		}
 		if v.Plain {
 			n++
@@ -54,6 +69,10 @@ func lenReplay(path string) {
 	sum.Nontrivial = n // vectors under the exactness clause
 	sum.Note("pack_differs_from_spec_octets_left_to_C01", skipped)
 	sum.Note("vectors_compression_shortened", shorter)
+	if len(modelMismatch) > 0 {
+		sum.Note("model_mismatch_vectors", len(modelMismatch))
+		sum.Note("model_mismatch_sample", modelMismatch[0])
+	}
 	sum.Print()
 }
 
@@ -118,22 +137,30 @@ func lenOne(v *lvec, sum *hx.Summary) (c01 bool) {
 			if err == dns.ErrBuf {
 				k = "len/pack-errbuf:"
 			}
-			sum.Mis(k+key, fmt.Sprintf("Pack() of a packable message (%s): %v (Len() = %d, spec length %d)", tag, err, l, v.Lenmsg), small(&v.vec))
+			sum.Mis(k+key, fmt.Sprintf("Pack() of a packable message (%s): %v (Len() = %d, spec length %d)", tag, err, l, v.Lenmsg), smallL(v))
 			continue
 		}
-		if !compress && !bytes.Equal(b, v.Bytes.Bytes()) {
+		if !compress && !v.NoBytes && !bytes.Equal(b, v.Bytes.Bytes()) {
 			c01 = true // the octets are wrong: C01's finding; the length clauses below still apply to what was packed
+		}
+		if !compress && v.NoBytes && len(b) != v.Lenmsg {
+			sum.Mis("len/uncompressed-length:"+key, fmt.Sprintf("uncompressed message has %d octets, spec %d", len(b), v.Lenmsg), smallL(v))
+			c01 = true
+		}
+		held := l >= len(b) && !(v.Plain && l != len(b))
+		if compress && held && !c01 && v.Exact && v.Pimpl != nil && v.Limpl != nil && (len(b) != *v.Pimpl || l != *v.Limpl) {
+			modelMismatch = append(modelMismatch, map[string]interface{}{"g": v.G, "v": v.V, "len": l, "limpl": *v.Limpl, "packlen": len(b), "pimpl": *v.Pimpl})
 		}
 		if compress && len(b) < v.Lenmsg {
 			shorter++
 		}
 		if compress && len(b) > v.Lenmsg && !c01 {
-			sum.Mis("len/compressed-longer:"+key, fmt.Sprintf("compressed message has %d octets, uncompressed (spec) %d", len(b), v.Lenmsg), small(&v.vec))
+			sum.Mis("len/compressed-longer:"+key, fmt.Sprintf("compressed message has %d octets, uncompressed (spec) %d", len(b), v.Lenmsg), smallL(v))
 		}
 		if l < len(b) {
-			sum.Mis("len/underestimate:"+key+":"+tag, fmt.Sprintf("Len() = %d < len(Pack()) = %d", l, len(b)), small(&v.vec))
+			sum.Mis("len/underestimate:"+key+":"+tag, fmt.Sprintf("Len() = %d < len(Pack()) = %d", l, len(b)), smallL(v))
 		} else if v.Plain && l != len(b) {
-			sum.Mis("len/inexact:"+key+":"+tag, fmt.Sprintf("Len() = %d, len(Pack()) = %d on a message of common types with escape-free content", l, len(b)), small(&v.vec))
+			sum.Mis("len/inexact:"+key+":"+tag, fmt.Sprintf("Len() = %d, len(Pack()) = %d on a message of common types with escape-free content", l, len(b)), smallL(v))
 		}
 		// PackBuffer: never ErrBuf, same octets, in place when the buffer is larger than the uncompressed length.
 		// "the uncompressed length" is the true one (spec) or the library's prediction: only buffers larger than both must be used (AMBIG)
@@ -145,13 +172,13 @@ func lenOne(v *lvec, sum *hx.Summary) (c01 bool) {
 		for _, p := range probeBuffers(func() *dns.Msg { return build(compress) }, b, sizesFor(u)) {
 			switch {
 			case p.Err == "ErrBuf":
-				sum.Mis("len/packbuffer-errbuf:"+key+":"+tag, fmt.Sprintf("PackBuffer(buf of %d) = ErrBuf, message needs %d", p.N, len(b)), small(&v.vec))
+				sum.Mis("len/packbuffer-errbuf:"+key+":"+tag, fmt.Sprintf("PackBuffer(buf of %d) = ErrBuf, message needs %d", p.N, len(b)), smallL(v))
 			case p.Err != "":
-				sum.Mis("len/packbuffer-error:"+key+":"+tag, fmt.Sprintf("PackBuffer(buf of %d): %s", p.N, p.Err), small(&v.vec))
+				sum.Mis("len/packbuffer-error:"+key+":"+tag, fmt.Sprintf("PackBuffer(buf of %d): %s", p.N, p.Err), smallL(v))
 			case !p.Same:
-				sum.Mis("len/packbuffer-octets:"+key+":"+tag, fmt.Sprintf("PackBuffer(buf of %d) differs from Pack()", p.N), small(&v.vec))
+				sum.Mis("len/packbuffer-octets:"+key+":"+tag, fmt.Sprintf("PackBuffer(buf of %d) differs from Pack()", p.N), smallL(v))
 			case p.N > need && !p.Inplace:
-				sum.Mis("len/packbuffer-not-in-place:"+key+":"+tag, fmt.Sprintf("PackBuffer(buf of %d) allocated although the uncompressed length is %d (predicted %d)", p.N, u, pred), small(&v.vec))
+				sum.Mis("len/packbuffer-not-in-place:"+key+":"+tag, fmt.Sprintf("PackBuffer(buf of %d) allocated although the uncompressed length is %d (predicted %d)", p.N, u, pred), smallL(v))
 			}
 		}
 	}
@@ -173,9 +200,9 @@ func lenOne(v *lvec, sum *hx.Summary) (c01 bool) {
 		got := dns.Len(rr)
 		k := L.KeyOf(arrs[i])
 		if got < want {
-			sum.Mis("len/rr-underestimate:"+k, fmt.Sprintf("Len(rr) = %d, the record has %d octets", got, want), small(&v.vec))
+			sum.Mis("len/rr-underestimate:"+k, fmt.Sprintf("Len(rr) = %d, the record has %d octets", got, want), smallL(v))
 		} else if v.Plain && got != want {
-			sum.Mis("len/rr-inexact:"+k, fmt.Sprintf("Len(rr) = %d, the record has %d octets (common type, escape-free)", got, want), small(&v.vec))
+			sum.Mis("len/rr-inexact:"+k, fmt.Sprintf("Len(rr) = %d, the record has %d octets (common type, escape-free)", got, want), smallL(v))
 		}
 	}
 	return
@@ -253,6 +280,9 @@ func lenRecord(out string, n int) {
 		g.big = i%25 == 7
 		g.related = true
 		a := g.message()
+		if i%10 == 4 {
+			a = g.straddle() // names crossing offset 16384
+		}
 		e := lenObserve(a, g.r.Intn(3) != 0, &sum)
 		if e.Packlen > 16384 {
 			big++
